@@ -33,13 +33,14 @@ def config(prop, tier):
         cfg["mode_weights"] = [2, 5, 3]
         cfg["runs"] = 90 if tier == "quick" else 3000
     else:  # C16
-        cfg["tree_weights"] = {"catalogue": 4, "corpus": 4, "examples": 2, "soup": 2, "semsoup": 6, "graph": 1, "worldb": 1}
+        cfg["tree_weights"] = {"catalogue": 7, "corpus": 3, "examples": 1.5, "soup": 1.5, "semsoup": 6, "graph": 0.5, "worldb": 0.5}
+        cfg["events"] = (8, 20) if tier == "quick" else (12, 36)
         cfg["event_weights"] = {"build": 8, "edit": 7, "torn_save": 2.5, "restore": 0.7, "delete": 1,
                                 "unreadable": 1, "duplicate": 0.5, "crash": 0.7, "spawn": 0.3}
         cfg["mode_weights"] = [3, 2, 5]
         cfg["race_rate"] = 0.3
         cfg["read_error_rate"] = 0.2
-        cfg["runs"] = 200 if tier == "quick" else 5000
+        cfg["runs"] = 300 if tier == "quick" else 8000
     return cfg
 
 
